@@ -650,7 +650,7 @@ Print Assumptions C08_histc_slot_stable.
     [ZbddOK] = well-formed ZBDD table with the terminals Empty and Base. *)
 From OxiVerif Require Import DD.Build DD.BuildProofs DD.FamSpec DD.FamSpecProofs DD.ZbddOps DD.ZbddOpsProofs DD.ZbddVars DD.ZbddVarsProofs.
 From OxiVerif Require Import Mgr.LevelSwapZ Mgr.LevelSwapZSem Mgr.LevelSwapZSub Mgr.LevelSwapZProofs Mgr.LevelSwapZChain
-  Mgr.LevelSwapZOrder Mgr.LevelSwapZFam.
+  Mgr.LevelSwapZOrder Mgr.LevelSwapZFam Mgr.LevelSwapZFind.
 
 (* (a) one swap inside the bracket keeps the ZBDD invariant (ordered, zero-suppressed, unique, maps inverse) *)
 Theorem C08_zbdd_swap_core_ok : forall s i,
@@ -909,3 +909,17 @@ Theorem C08_zbdd_level_swap_example :
   /\ NoDup [2; 1; 0] /\ Forall (fun v => v < nlevels zex_swap) [2; 1; 0].
 Proof. exact zex_swap_all. Qed.
 Print Assumptions C08_zbdd_level_swap_example.
+
+(* the structural search for the chain ([zchain_ids], what the model's next [pre_reorder_mut] acts on)
+   succeeds on every table that [post_reorder_mut] has completed *)
+
+Theorem C08_zbdd_chain_rebuild_found : forall s, ZbddOpsProofs.ZbddOK s ->
+  exists ids, zchain_ids (zchain_rebuild s) = Some ids /\ length ids = nlevels s.
+Proof. exact zchain_rebuild_found. Qed.
+Print Assumptions C08_zbdd_chain_rebuild_found.
+
+Theorem C08_zbdd_level_swap_chain_found : forall s i,
+  ZbddOpsProofs.ZbddOK s -> S i < nlevels s ->
+  exists ids, zchain_ids (level_swap_z s i) = Some ids /\ length ids = nlevels s.
+Proof. exact level_swap_z_found. Qed.
+Print Assumptions C08_zbdd_level_swap_chain_found.
